@@ -763,6 +763,31 @@ pub fn pbkw_wrap(ver: Ver, kind: &str, pw: &[u8], params: &PwParams, salt: &[u8]
     Ok(format!("{h}{}", b64_encode(&blob)))
 }
 
+/// The blob for a given KDF OUTPUT (pre-key) instead of a password: what anyone can compute if a back
+/// end ever derives a constant pre-key (e.g. skips the KDF for degenerate parameters).
+pub fn pbkw_wrap_with_prekey(ver: Ver, kind: &str, prekey: &[u8], params_bytes: &[u8], salt: &[u8], nonce: &[u8], ptk: &[u8]) -> String {
+    let h = format!("{}.{}-pw.", ver.k(), kind);
+    let (edk, t) = if ver.nist() {
+        let ek = sha384(&[&[0xff], prekey]);
+        let ak = sha384(&[&[0xfe], prekey]);
+        let edk = aes256ctr(&ek[..32], nonce, ptk);
+        let t = hmac384(&ak, &[h.as_bytes(), salt, params_bytes, nonce, &edk]).to_vec();
+        (edk, t)
+    } else {
+        let ek = blake2b(None, 32, &[&[0xff], prekey]);
+        let ak = blake2b(None, 32, &[&[0xfe], prekey]);
+        let edk = xchacha20(&ek, nonce, ptk);
+        let t = blake2b(Some(&ak), 32, &[h.as_bytes(), salt, params_bytes, nonce, &edk]);
+        (edk, t)
+    };
+    let mut blob = salt.to_vec();
+    blob.extend_from_slice(params_bytes);
+    blob.extend_from_slice(nonce);
+    blob.extend_from_slice(&edk);
+    blob.extend_from_slice(&t);
+    format!("{h}{}", b64_encode(&blob))
+}
+
 pub struct PbkwParts {
     pub salt: Vec<u8>,
     pub params: PwParams,
